@@ -19,16 +19,16 @@ var resolvedFields = map[[2]string]string{}
 
 // fieldTypeHints: (struct, field) -> suffix of the field's type as printed by go/types.
 var fieldTypeHints = map[[2]string]string{
-	{"dag.DirectedTargetGraph", "nodes"}:                         "model.BuildNodeMap",
-	{"dag.Walker", "nodeInfoMap"}:                                "]*grog/internal/dag.nodeInfo",
-	{"dag.Walker", "completions"}:                                "dag.CompletionMap",
-	{"worker.job", "task"}:                                       "worker.TaskFunc[T]",
-	{"worker.TaskWorkerPool", "jobCh"}:                           "chan grog/internal/worker.job[T]",
-	{"worker.TaskWorkerPool", "taskState"}:                       "console.TaskStateMap",
-	{"caching/backends.FileSystemCache", "workspaceCacheDir"}:    "string",
-	{"loading.PklLoader", "evaluator"}:                           "pkl.Evaluator",
-	{"execution.Executor", "loadOutputsMode"}:                    "config.LoadOutputsMode",
-	{"output.Registry", "handlers"}:                              "]grog/internal/output/handlers.Handler",
+	{"dag.DirectedTargetGraph", "nodes"}:                      "model.BuildNodeMap",
+	{"dag.Walker", "nodeInfoMap"}:                             "]*grog/internal/dag.nodeInfo",
+	{"dag.Walker", "completions"}:                             "dag.CompletionMap",
+	{"worker.job", "task"}:                                    "worker.TaskFunc[T]",
+	{"worker.TaskWorkerPool", "jobCh"}:                        "chan grog/internal/worker.job[T]",
+	{"worker.TaskWorkerPool", "taskState"}:                    "console.TaskStateMap",
+	{"caching/backends.FileSystemCache", "workspaceCacheDir"}: "string",
+	{"loading.PklLoader", "evaluator"}:                        "pkl.Evaluator",
+	{"execution.Executor", "loadOutputsMode"}:                 "config.LoadOutputsMode",
+	{"output.Registry", "handlers"}:                           "]grog/internal/output/handlers.Handler",
 }
 
 func structByKey(c *Check, typeKey string) *types.Struct {
